@@ -47,12 +47,53 @@
      offset/length outside the plain text, and raises IndexError (`crash`) if the position map
      points behind the end of the file — both are outcomes of the model, compared with Python.
 
+  3. The text of the report (`HtmlText.generateHtmlText`, Model/HtmlText.lean = the strings that
+     `begin_match`, `generate_highlight`, `add_line_numbers` and `generate_html` really build, regular
+     expression included; tied to the Python functions by the differential test
+     harness/corr_htmltext.py, driver operations BEGINMATCH, HIGHLIGHT, ADDLINES, HTMLTEXT, BRMATCHES,
+     ESCAPES; the structure of item 2 is what it is composed with).  Data = source text, proofreader
+     message, rule id/subId, suggestions, context text, rule URL.
+     * `C16_title_safe` — the `title="…"` value of the tag of a match is a concatenation of
+       `protect_title` images and of the program's literals `\n`, `Suggestion: `, `Context: `; it
+       contains no `"`, `<`, `>`, and exactly three line breaks — the program's own: no line break of
+       the data survives (`&#10;`), so the page is never split inside a tag by `add_line_numbers`.
+       `C16_href_safe` — the `href` value of `--link` is an `html.escape` image: no `"`, `'`, `<`, `>`.
+     * `C16_tags_from_templates` — for style strings of `vars` without `"` and `<` (`VarsOk`; the real
+       ones: `C16ex.varsOk`) and a file name without `"` (the ONLY data written unescaped:
+       `<a id="FILE">`, `<a href="#FILE-@@@">`; `C16ex.file_name_becomes_markup` shows what a hostile
+       file name does): the page text of one file is `renderPieces (reportPieces …)`, an explicit list
+       of pieces in which every literal is one of the 27 string constants of `genhtml.py`, a style
+       string or a decimal number (`AllOk`), every `protect_html` image stands in text and every
+       `protect_title`/`html.escape` image inside a double-quoted attribute value (`flow`); the page
+       ends in text (no tag or attribute left open).  Hence the tags of the page (`tagsOf`: a
+       conservative tokenizer — every `<` in text opens a tag, attribute values are left out) are a
+       function of the literals and of the NUMBER of line breaks of each text piece (`skel`): any other
+       data of the same shape, e.g. all data characters except line breaks replaced by `x`
+       (`TPiece.blank`), gives the same tags.  No `<`, `>`, `&`, `"` of source, messages or suggestions
+       becomes markup.
+     * `C16_text_roundtrip` — reading the entities back (`unprotect`: `&amp; &quot; &lt; &gt; &ensp;`
+       and `<br>` + line break) gives the text with every tab replaced by eight blanks; exactly the text
+       if it has no tab (`C16_text_roundtrip_no_tab`).  Not invertible: a tab and eight blanks have the
+       same image (`C16_tab_not_invertible`).  With `C16_rows`: the cells show the source lines.
+     * `C16_highlight_pieces` — `generate_highlight` (its regular expression modelled on arbitrary
+       strings, `brMatches`) puts one tag pair around every line piece of the protected text — the
+       lines of the text, the rest behind the last line break only if not empty —, what stands between
+       a tag pair has no line break and no `<`, `>`, `"`, and without the tags the result is
+       `protect_html(text)`.
+     A defect of /repo the model records (not part of C16's claim): `begin_match` reads the global
+     `highlight_style_unsure`, which `genhtml.init` never sets — a match at an unsure position
+     (negative map entry) would end the HTML report with NameError (`Vars.highlightStyleUnsure = none`
+     in the model: `crash`; `C16ex.unsure_crashes`).  Latent: the filter's position map has natural
+     numbers only (`T2TResult.pos : List Nat` in Model/Tex2txt.lean), the shell never hands over a
+     negative entry.
+
   Not proved here, checked on real reports parsed with `html.parser` (harness/props/C16.py): the
-  tag a highlight becomes (title attribute with message, rule, suggestions, context; `--link`), the
-  page frame, the index of several files.
+  page frame and the index of several files (`generate_html_report`; the index writes the file name
+  unescaped into `href`).
 -/
 import YalafiVerif.Proofs.Shell
 import YalafiVerif.Proofs.Html
+import YalafiVerif.Proofs.HtmlText
 import YalafiVerif.Generated.Tables
 namespace Yalafi
 open Html
@@ -218,6 +259,176 @@ example : (generateHtml T tex (charmap.map (fun x => -x)) ms 0).bind
 /-- offsets outside the plain text: the shell's error exit; a map that points behind the file: IndexError -/
 example : generateHtml T tex charmap [(40, 1)] 0 = .fatal := by decide +kernel
 example : generateHtml T tex [99, 99, 99] [(0, 1)] 0 = .crash "genhtml.py:generate_html" := by decide +kernel
+end C16ex
+
+/-! ### the text of the report -/
+section Text
+open HtmlText
+
+/-- a `protect_title` image: no double quote, no `<`, no `>`, no line break -/
+theorem C16_protect_title_chars (s : Str) :
+    ∀ c ∈ protectTitle s, c ≠ '"' ∧ c ≠ '<' ∧ c ≠ '>' ∧ c ≠ '\n' := protectTitle_safe s
+
+/-- (a) whatever message, rule, suggestions and context the proofreader sends: the tag `begin_match` builds
+    is `<span style="STYLE" title="` + title + `">` (+ the link tag), the title consists of `protect_title`
+    images and the three literals; its value has no `"`, `<`, `>` and exactly the program's three line breaks -/
+theorem C16_title_safe (V : Vars) (m : Json) (lin : Int) (unsure : Bool) (t : Tag)
+    (h : beginMatch V m lin unsure = .ok t) :
+    ∃ d style url, matchData m = .ok d ∧
+      t.1 = spanOpen style (titlePieces d lin unsure) ++ linkOpen url ∧ t.2 = linkClose url ∧
+      (∀ p ∈ titlePieces d lin unsure,
+          (∃ s, p = .escTitle s) ∨ p = L "\n" ∨ p = L "Suggestion: " ∨ p = L "Context: ") ∧
+      (∀ c ∈ renderPieces (titlePieces d lin unsure), c ≠ '"' ∧ c ≠ '<' ∧ c ≠ '>') ∧
+      (renderPieces (titlePieces d lin unsure)).count '\n' = 3 :=
+  title_safe V m lin unsure t h
+
+/-- (a) the link tag of `--link`: the URL goes through `html.escape`, whose image has no quote of either
+    kind, no `<`, no `>` -/
+theorem C16_href_safe (u : Str) :
+    linkOpen (some u) = [L "<a href=\"", .escAttr u, L "\" target=\"_blank\">"] ∧
+    ∀ c ∈ htmlEscape u, c ≠ '"' ∧ c ≠ '<' ∧ c ≠ '>' ∧ c ≠ '\'' :=
+  href_safe u
+
+/-- (b) the page text of one file: pieces whose literals are the program's templates, all data escaped and
+    placed in text resp. inside a double-quoted attribute value; the tags of the page are determined by the
+    literals and the numbers of line breaks — independent of the content of source, messages, suggestions -/
+theorem C16_tags_from_templates (T : Tables) (V : Vars) (tex : Str) (charmap : List Int) (ms : List Json) (file : Str)
+    (context : Nat) (r : FileReport) (hV : VarsOk V) (hf : file.all (· != '"') = true)
+    (h : generateHtmlText T V tex charmap ms file context = .ok r) :
+    ∃ rep tags, generateHtml T tex charmap (olPrefix ms) context = .ok rep ∧ matchTags V ms rep.hdata = .ok tags ∧
+      r.body = renderPieces (reportPieces V file ms.length rep tags) ∧
+      AllOk V file (reportPieces V file ms.length rep tags) ∧
+      flow .text (reportPieces V file ms.length rep tags) = some .text ∧
+      HtmlText.scan TokSt.text r.body = (TokSt.text, skel TokSt.text (reportPieces V file ms.length rep tags)) ∧
+      (∀ qs, qs.map TPiece.shape = (reportPieces V file ms.length rep tags).map TPiece.shape →
+        tagsOf (renderPieces qs) = tagsOf r.body) ∧
+      tagsOf (renderPieces ((reportPieces V file ms.length rep tags).map TPiece.blank)) = tagsOf r.body :=
+  tags_from_templates T V tex charmap ms file context r hV hf h
+
+/-- (b) the general fact behind it: well-placed pieces of the same shape have the same tags -/
+theorem C16_tags_shape (ps qs : List TPiece) (st' : TokSt) (h : flow .text ps = some st')
+    (hs : qs.map TPiece.shape = ps.map TPiece.shape) : tagsOf (renderPieces qs) = tagsOf (renderPieces ps) :=
+  tagsOf_shape ps qs st' h hs
+
+/-- (c) reading the entities back gives the text, tabs as eight blanks -/
+theorem C16_text_roundtrip (s : Str) : unprotect (protectHtml s) = untab s := unprotect_protectHtml s
+
+theorem C16_text_roundtrip_no_tab (s : Str) (h : '\t' ∉ s) : unprotect (protectHtml s) = s := by
+  rw [unprotect_protectHtml, untab_id s h]
+
+/-- (c) what is lost: a tab and eight blanks are shown alike -/
+theorem C16_tab_not_invertible : protectHtml ['\t'] = protectHtml (List.replicate 8 ' ') := by decide
+
+/-- (d) `generate_highlight` -/
+theorem C16_highlight_pieces (pre post s : Str) :
+    highlightWith pre post s = (hlLines s).flatMap (fun l => pre ++ protectHtml l.1 ++ post ++ brGroup2 l.2) ∧
+    (∀ l ∈ hlLines s, '\n' ∉ l.1 ∧ ∀ c ∈ protectHtml l.1, c ≠ '<' ∧ c ≠ '>' ∧ c ≠ '\n' ∧ c ≠ '"') ∧
+    joinLines (hlLines s) = s ∧
+    ((hlLines s).filter (·.2)).length = s.count '\n' ∧
+    (∃ (ls : List Str) (last : Str),
+        hlLines s = ls.map (fun l => (l, true)) ++ (if last.isEmpty then [] else [(last, false)])) ∧
+    highlightWith [] [] s = protectHtml s :=
+  highlight_pieces pre post s
+
+/-- (d) the function with its tag: `pre` = the rendered tag of `begin_match`, `post` = `</a>`? + `</span>` -/
+theorem C16_generate_highlight (V : Vars) (m : Json) (s : Str) (lin : Int) (unsure : Bool) (out : Str)
+    (h : generateHighlight V m s lin unsure = .ok out) :
+    ∃ t, beginMatch V m lin unsure = .ok t ∧ out = highlightWith (Tag.pre t) (Tag.post t) s :=
+  generateHighlight_ok V m s lin unsure out h
+
+/-- (d) the regular expression on a protected text finds its lines -/
+theorem C16_regex_on_protected (s : Str) :
+    brMatches (protectHtml s) = (hlLines s).map (fun l => (protectHtml l.1, l.2)) := brMatches_protectHtml s
+
+/-- the regular expression on the three kinds of string: nothing for the empty string, no empty match behind
+    a final `<br>\n`, one match for a string without `<br>\n`; a lone `<br` or `<br>` is text -/
+example : brMatches [] = [] := by decide
+example : brMatches "a<br>\n".toList = [("a".toList, true)] := by decide
+example : brMatches "ab".toList = [("ab".toList, false)] := by decide
+example : brMatches "<br>\n<br>\nx<br<br>y".toList = [([], true), ([], true), ("x<br<br>y".toList, false)] := by decide
+
+end Text
+
+namespace C16ex
+open HtmlText
+
+/-- the style strings of `shell.py` (and `--link`) -/
+def V : Vars :=
+  { highlightStyle := "background: orange; border: solid thin black".toList,
+    highlightStyleUnsure := some "background: yellow; border: solid thin black".toList,
+    numberStyle := "color: grey".toList, link := true }
+
+theorem varsOk : VarsOk V :=
+  ⟨by decide, fun s h => by
+      have h' : some "background: yellow; border: solid thin black".toList = some s := h
+      cases h'; decide, by decide⟩
+
+def hostile : Str := "x\"><script>alert(1)</script>".toList
+
+/-- a proofreader message whose every text field is hostile -/
+def mrec (offset length : Int) : Json :=
+  .obj [("offset".toList, .int offset), ("length".toList, .int length), ("message".toList, .str hostile),
+        ("context".toList, .obj [("text".toList, .str "ab <e> \"q\"\n".toList), ("offset".toList, .int 3),
+                                 ("length".toList, .int 3)]),
+        ("rule".toList, .obj [("id".toList, .str "R<1>".toList), ("subId".toList, .str "\"2".toList),
+                              ("urls".toList, .arr [.obj [("value".toList, .str "http://x/?a=1&b=\"'><script>".toList)]])]),
+        ("replacements".toList, .arr [.obj [("value".toList, .str "</span>".toList)],
+                                      .obj [("value".toList, .str "a\nb".toList)]])]
+
+theorem hostile_title : protectTitle hostile = "x&quot;&gt;&lt;script&gt;alert(1)&lt;/script&gt;".toList := by decide
+
+/-- the tag of the hostile message.  As it is written (`#eval`):
+    `<span style="background: orange; border: solid thin black" title="x&quot;&gt;&lt;script&gt;alert(1)&lt;/script&gt;⏎`
+    `Line&ensp;1:&ensp;&gt;&gt;&gt;&lt;e&gt;&lt;&lt;&lt;&ensp;&ensp;&ensp;&ensp;(Rule&ensp;ID:&ensp;R&lt;1&gt;[&quot;2])⏎`
+    `Suggestion: &lt;/span&gt;;&ensp;a&#10;b⏎Context: ab&ensp;&gt;&gt;&gt;&lt;e&gt;&lt;&lt;&lt;&ensp;&quot;q&quot;&#10;">`
+    `<a href="http://x/?a=1&amp;b=&quot;&#x27;&gt;&lt;script&gt;" target="_blank">`.
+    Checked here: its only `<`, `>`, `"` are those of the two templates (2, 2, 8), its line breaks the three of the
+    title, its tokens one `span` and one `a`; the closing part is `</a>`. -/
+theorem hostile_tag :
+    (beginMatch V (mrec 0 2) 1 false).bind (fun t => .ok
+      [(renderPieces t.1).count '<', (renderPieces t.1).count '>', (renderPieces t.1).count '"',
+       (renderPieces t.1).count '\n'])
+    = .ok [2, 2, 8, 3] := by decide +kernel
+
+theorem hostile_tag_tokens :
+    (beginMatch V (mrec 0 2) 1 false).bind (fun t => .ok (tagsOf (renderPieces t.1) ++ [renderPieces t.2]))
+    = .ok ["<span style=\"\" title=\"\">".toList, "<a href=\"\" target=\"\">".toList, "</a>".toList] := by
+  decide +kernel
+
+def strs (l : List String) : List Str := l.map String.toList
+
+def rowTags : List String :=
+  ["<tr>", "<td style=\"\" align=\"\" valign=\"\">", "</td>", "<td>", "<span style=\"\" title=\"\">",
+   "<a href=\"\" target=\"\">", "</a>", "</span>", "</td>", "</tr>"]
+def emptyRowTags : List String := ["<tr>", "<td style=\"\" align=\"\" valign=\"\">", "</td>", "<td>", "</td>", "</tr>"]
+
+/-- the report of the file of `run0` with three hostile messages (the second one overlapping): its tags are the
+    templates' — anchor, title, link to the overlapping messages, a table of four rows (two with a highlight),
+    the table of overlapping messages with one row -/
+theorem hostile_report :
+    (generateHtmlText T V tex charmap [mrec 0 2, mrec 1 4, mrec 20 4] "d.tex".toList 0).bind
+      (fun r => .ok (tagsOf r.body))
+    = .ok (strs (["<a id=\"\">", "</a>", "<H3>", "</H3>", "<a href=\"\">", "<H3>", "</H3>", "</a>", "<table cellspacing=\"\">"]
+           ++ rowTags ++ emptyRowTags ++ rowTags ++ emptyRowTags ++
+           ["</table>", "<a id=\"\">", "</a>", "<H3>", "</H3>", "<table cellspacing=\"\">",
+            "<tr>", "<td style=\"\" align=\"\" valign=\"\">", "</td>", "<td>", "<span style=\"\" title=\"\">",
+            "<a href=\"\" target=\"\">", "</a>", "</span>", "</td>", "</tr>", "</table>"])) := by decide +kernel
+
+/-- the theorem applies: the side conditions hold for the real style strings and this file name -/
+example (r : FileReport) (h : generateHtmlText T V tex charmap [mrec 0 2, mrec 1 4, mrec 20 4] "d.tex".toList 0 = .ok r) :=
+  C16_tags_from_templates T V tex charmap _ _ 0 r varsOk (by decide) h
+
+/-- the side condition on the file name is needed: the file name is written as it is -/
+theorem file_name_becomes_markup :
+    (generateHtmlText T V tex charmap [] "a\"><script>".toList 0).bind
+      (fun r => .ok (tagsOf r.body))
+    = .ok (strs ["<a id=\"\">", "<script>", "</a>", "<H3>", "</H3>"]) := by decide +kernel
+
+/-- /repo as it is: the style of an unsure match is an undefined name -/
+theorem unsure_crashes :
+    beginMatch { V with highlightStyleUnsure := none } (mrec 0 2) 1 true
+      = .crash "genhtml.py:begin_match:highlight_style_unsure" := by decide +kernel
+
 end C16ex
 
 /-- `C16_region_text` needs the final line break: in `a⏎bc` with a match on `b` the region shows `b`
